@@ -466,6 +466,10 @@ let () =
           | PCnt x -> Printf.sprintf "cnt:%d:%s:%s:[%s]" (int_of_n x.sd_version) (hexn x.sd_flags) (dec_of_n x.sd_count)
                         (S.concat "," (L.map (fun t -> name_hex (tname t) ^ ":" ^ dec_of_n (tsize t)) x.sd_kids))
           | PWvtt (dri, kids) -> Printf.sprintf "wvtt:%d:[%s]" (int_of_n dri) (S.concat "," (L.map dump kids))
+          | PEvte (dri, kids) -> Printf.sprintf "evte:%d:[%s]" (int_of_n dri) (S.concat "," (L.map dump kids))
+          | PStpp (a, kids) ->
+            let hd l = if l = [] then "-" else hex_of_bytes l in
+            Printf.sprintf "stpp:%d:%s:%s:%s:[%s]" (int_of_n a.sp_dri) (hd a.sp_ns) (hd a.sp_sl) (hd a.sp_am) (S.concat "," (L.map dump kids))
           | PAse (a, kids) -> Printf.sprintf "ase:%d:%d:%d:%d:[%s]" (int_of_n a.as_dri) (int_of_n a.as_cc) (int_of_n a.as_ss) (int_of_n a.as_rate)
                                 (S.concat "," (L.map dump kids)) in
         let m1 = match pfxbox_r bs with
